@@ -166,7 +166,7 @@ func checkC08(c *StabilityCase) error {
 		snaps = append(snaps, snap)
 		return nil
 	}
-	st := ss.run(attempt{l: l, pacing: c.E.Pacing, handler: handler, plan: &fakemaster.ConnPlan{Chop: c.E.Chop}, noSnapshot: true, noMangle: true})
+	st := ss.run(attempt{l: l, pacing: c.E.Pacing, handler: handler, plan: &fakemaster.ConnPlan{Chop: c.E.Chop}, noSnapshot: true, noMangle: true, noRetain: c.Leaves})
 	st.drainLib()
 	if err := st.panicErr(); err != nil {
 		return err
